@@ -18,7 +18,9 @@ MULTILINE_VALUES = ["[\n  u\n  v\n]", "{\n  k = 1;\n  m = 2;\n}", "''\n  text\n'
 COMMENTED_VALUES = ["2 # vc1", "/* vc2 */ 2", "# vc3\n2", "2 /* vc4 */", "[ u ] # vc5", "{ } # vc6"]
 BAD_VALUES = ["", "   ", "# only a comment", "1 2 ;", "1 +", "{ a = ", "a b )", "1; 2", "let x = 1;", "[ 1", "\n"]
 MALFORMED_PATHS = ["", ".", "a..b", ".a", "a.", 'a"b"', '"a', 'a."b', '"a\\', "a-b", "1a", "a b", "'a",
-                   "a.$", "@", "@@", '"a"b', "a.\"b\"c", "a,b", "a;"]
+                   "a.$", "@", "@@", '"a"b', "a.\"b\"c", "a,b", "a;",
+                   # quoted segments that touch each other (no dot between them), also behind an empty one
+                   '"""a"', 'a."""b"', '""""', '"a""b"', '"a"""', '@"""a"']
 
 
 @dataclass
